@@ -145,5 +145,8 @@ def run(check, ctx):
     from . import c_modes
     c_modes.mode_tables(check, ctx, ("ctr", "ctrwrap"), rule="K-sym")
     check.floor("K-sym", 2)
-    check.undecided.append("counter layouts and start values outside the enumerated table")
+    # ChaCha20's block counter: histories of seek/encrypt around both ends of the counter
+    from . import c_chacha
+    c_chacha.chacha_tables(check, ctx)
+    check.undecided.append("counter layouts and start values outside the enumerated table; ChaCha20 histories outside the table")
     check.undecided.append("data returned before the failure is correct keystream")
